@@ -427,6 +427,18 @@ func (e *Engine) callWrites(cc *ssa.CallCommon, w *WriteSet, fn *ssa.Function, v
 		w.setAll("call of callback field " + shortKey(key) + " (no contract)")
 		return
 	}
+	if mc := localClosureOf(cc.Value); mc != nil { // models_coord.go: `f := func(){...}; f()` through a local variable
+		if cf, ok := mc.Fn.(*ssa.Function); ok {
+			e.funcWrites(cf, w, visiting)
+			for _, b := range mc.Bindings {
+				if al, ok := b.(*ssa.Alloc); ok && al.Heap {
+					w.Boxes[al] = true
+					e.addAllocHeapKeys(al, w)
+				}
+			}
+			return
+		}
+	}
 	w.setAll("call of unknown function value in " + shortKey(funcKey(fn)))
 }
 
